@@ -3,10 +3,12 @@ package raftsim
 import (
 	"fmt"
 	"hash/fnv"
+	"os"
 	"regexp"
 	"sort"
 	"strings"
 
+	"github.com/lni/dragonboat/v4/internal/raft"
 	"github.com/lni/dragonboat/v4/internal/server"
 	pb "github.com/lni/dragonboat/v4/raftpb"
 	sm "github.com/lni/dragonboat/v4/statemachine"
@@ -50,6 +52,11 @@ type readRec struct {
 	n         int
 }
 
+type votingAt struct {
+	evt uint64
+	set []uint64
+}
+
 type evtTerm struct {
 	evt  uint64
 	term uint64
@@ -80,11 +87,14 @@ type monitors struct {
 	voteResp map[[2]uint64]map[uint64]bool
 
 	// C06
-	reads   map[pb.SystemCtx]*readRec
-	evt     uint64                             // monitor event counter (finer than sim steps)
-	regEvt  map[uint64]map[pb.SystemCtx]uint64 // per replica: when it (last) received a read context
-	hbEvt   map[[2]uint64]evtTerm              // (follower, leader): latest Heartbeat handled
-	respEvt map[[2]uint64]evtTerm              // (leader, follower): latest HeartbeatResp handled
+	reads      map[pb.SystemCtx]*readRec
+	evt        uint64                             // monitor event counter (finer than sim steps)
+	regEvt     map[uint64]map[pb.SystemCtx]uint64 // per replica: when it (last) received a read context
+	hbEvt      map[[2]uint64]evtTerm              // (follower, leader): latest Heartbeat handled
+	respEvt    map[[2]uint64]evtTerm              // (leader, follower): latest HeartbeatResp handled
+	votingHist map[uint64][]votingAt
+	// remoteAnswered: read contexts for which the replica handled a ReadIndexResp
+	remoteAnswered map[uint64]map[pb.SystemCtx]bool
 
 	// C07
 	ccQueue map[uint64][]uint64 // per replica: indexes of pushed config change entries
@@ -97,6 +107,10 @@ type monitors struct {
 	opByKey map[uint64]int // entry key -> op index
 	opOrig  map[uint64][2]uint64
 	readOps map[int]int
+
+	beginRole   string
+	beginTerm   uint64
+	beginCommit uint64
 
 	// trace hash for distinct counting
 	sig     uint64
@@ -119,7 +133,7 @@ func newMonitors(s *Sim, sink Sink) *monitors {
 		stateBy: map[uint64]uint64{}, memberAt: map[uint64]uint64{},
 		leaderOf: map[uint64]uint64{}, votes: map[[2]uint64]uint64{}, voteResp: map[[2]uint64]map[uint64]bool{},
 		reads: map[pb.SystemCtx]*readRec{}, regEvt: map[uint64]map[pb.SystemCtx]uint64{},
-		hbEvt: map[[2]uint64]evtTerm{}, respEvt: map[[2]uint64]evtTerm{},
+		hbEvt: map[[2]uint64]evtTerm{}, respEvt: map[[2]uint64]evtTerm{}, remoteAnswered: map[uint64]map[pb.SystemCtx]bool{}, votingHist: map[uint64][]votingAt{},
 		ccQueue: map[uint64][]uint64{}, ccAt: map[uint64]ccOutcome{},
 		opByKey: map[uint64]int{}, opOrig: map[uint64][2]uint64{}, readOps: map[int]int{},
 		flags: map[string]bool{}, curTerm: map[uint64]uint64{},
@@ -179,6 +193,8 @@ func (m *monitors) onStarted(r *replica, ssIndex uint64) {
 
 func (m *monitors) onCrash(r *replica) {
 	delete(m.regEvt, r.id)
+	delete(m.remoteAnswered, r.id)
+	delete(m.votingHist, r.id)
 }
 
 // ---------- C02 ----------
@@ -259,9 +275,69 @@ func (m *monitors) onUpdate(r *replica, ud *pb.Update) {
 	}
 }
 
+// noteVoting records the voting set (voters + witnesses) a replica operates
+// under whenever it changes.
+func (m *monitors) noteVoting(r *replica, v *raft.VerifView) {
+	set := append(append([]uint64{}, v.Voters...), v.Witnesses...)
+	h := m.votingHist[r.id]
+	if n := len(h); n > 0 && equalIDs(h[n-1].set, set) {
+		return
+	}
+	m.evt++
+	m.votingHist[r.id] = append(h, votingAt{evt: m.evt, set: set})
+}
+
+func equalIDs(a, b []uint64) bool {
+	if len(a) != len(b) {
+		return false
+	}
+	for i := range a {
+		if a[i] != b[i] {
+			return false
+		}
+	}
+	return true
+}
+
+// votingSince returns every replica that was in r's voting set at some
+// moment since evt.
+func (m *monitors) votingSince(r *replica, evt uint64) []uint64 {
+	h := m.votingHist[r.id]
+	seen := map[uint64]bool{}
+	var out []uint64
+	for i, e := range h {
+		if e.evt >= evt || i == len(h)-1 || h[i+1].evt > evt {
+			for _, x := range e.set {
+				if !seen[x] {
+					seen[x] = true
+					out = append(out, x)
+				}
+			}
+		}
+	}
+	return out
+}
+
+func (m *monitors) onStepBegin(r *replica) {
+	v := r.peer.VerifView()
+	m.noteVoting(r, &v)
+	m.beginRole, m.beginTerm, m.beginCommit = v.Role, v.Term, v.Committed
+}
+
 func (m *monitors) onStepEnd(r *replica) {
 	v := r.peer.VerifView()
 	prev := m.commitSeen[r.id]
+	// a replica that was leader of one term throughout the step advanced its
+	// commit index by counting: raft only ever commits entries of the
+	// leader's own term that way (committing an older term's entry by
+	// counting lets a committed entry be replaced later - raft paper fig. 8)
+	if v.Role == "Leader" && m.beginRole == "Leader" && m.beginTerm == v.Term && v.Committed > m.beginCommit {
+		if t := r.peer.VerifTerm(v.Committed); t != 0 && t != v.Term {
+			m.violation("C02", "leader-commits-older-term-entry-by-counting",
+				fmt.Sprintf("leader %d of term %d advanced its commit index from %d to %d whose entry has term %d", r.id, v.Term, m.beginCommit, v.Committed, t))
+		}
+		m.count("leader_commit_advances_checked", 1)
+	}
 	if v.Committed > prev {
 		l := m.log(r)
 		for i := prev + 1; i <= v.Committed; i++ {
@@ -378,6 +454,10 @@ func (m *monitors) onUserUpdate(r *replica, index uint64, cmd []byte) {
 }
 
 func (m *monitors) onApplied(r *replica) {
+	if r.alive && !r.removed {
+		v := r.peer.VerifView()
+		m.noteVoting(r, &v)
+	}
 	idx := r.rsm.GetLastApplied()
 	if idx == 0 {
 		return
@@ -604,6 +684,9 @@ func (m *monitors) onSend(from *replica, msg pb.Message) {
 func (m *monitors) onDeliver(to *replica, msg pb.Message) {}
 
 func (m *monitors) onHandle(r *replica, msg pb.Message) {
+	if os.Getenv("VERIF_DEBUG") == "2" && (msg.Type == pb.ReadIndex || msg.Type == pb.ReadIndexResp || ((msg.Type == pb.HeartbeatResp || msg.Type == pb.Heartbeat) && msg.Hint != 0)) {
+		fmt.Fprintf(os.Stderr, "%d/e%d: replica %d handles %s from %d ctx {%d %d} term %d\n", m.s.stepNo, m.evt, r.id, msg.Type, msg.From, msg.Hint, msg.HintHigh, msg.Term)
+	}
 	switch msg.Type {
 	case pb.RequestVoteResp:
 		if !msg.Reject {
@@ -613,6 +696,12 @@ func (m *monitors) onHandle(r *replica, msg pb.Message) {
 			}
 			m.voteResp[k][msg.From] = true
 		}
+	case pb.ReadIndexResp:
+		// the requester is answered by another replica
+		if m.remoteAnswered[r.id] == nil {
+			m.remoteAnswered[r.id] = map[pb.SystemCtx]bool{}
+		}
+		m.remoteAnswered[r.id][pb.SystemCtx{Low: msg.Hint, High: msg.HintHigh}] = true
 	case pb.ReadIndex:
 		m.leaderSawCtx(r, pb.SystemCtx{Low: msg.Hint, High: msg.HintHigh})
 	case pb.Heartbeat:
@@ -680,7 +769,8 @@ func (m *monitors) checkReadAnswer(r *replica, ctx pb.SystemCtx, index uint64, t
 		// a voting member confirms r's leadership after the request arrived if
 		// it handled a heartbeat of r (same term) after that moment and r has
 		// handled a heartbeat response of it after that moment
-		voting := append(append([]uint64{}, v.Voters...), v.Witnesses...)
+		m.noteVoting(r, &v)
+		voting := m.votingSince(r, reg)
 		n := 1
 		for _, f := range voting {
 			if f == r.id {
@@ -690,6 +780,11 @@ func (m *monitors) checkReadAnswer(r *replica, ctx pb.SystemCtx, index uint64, t
 			rs, ok2 := m.respEvt[[2]uint64{r.id, f}]
 			if ok1 && ok2 && hb.term == term && rs.term == term && hb.evt >= reg && rs.evt >= reg {
 				n++
+			}
+		}
+		if n < v.Quorum && os.Getenv("VERIF_DEBUG") != "" {
+			for _, f := range voting {
+				fmt.Fprintf(os.Stderr, "  step %d leader %d term %d ctx %v reg %d: member %d hb %+v resp %+v view %+v\n", m.s.stepNo, r.id, term, ctx, reg, f, m.hbEvt[[2]uint64{f, r.id}], m.respEvt[[2]uint64{r.id, f}], v)
 			}
 		}
 		if n < v.Quorum {
@@ -731,7 +826,13 @@ func (m *monitors) onReadReady(r *replica, rtr pb.ReadyToRead) {
 			m.flags["read_raced_leader_change"] = true
 		}
 	}
-	// the answering leader, when it is the requester itself
+	// the answering leader, when it is the requester itself (and the answer
+	// did not come in a ReadIndexResp of another leader handled in this step)
+	if m.remoteAnswered[r.id][rtr.SystemCtx] {
+		delete(m.remoteAnswered[r.id], rtr.SystemCtx)
+		delete(m.regEvt[r.id], rtr.SystemCtx)
+		return
+	}
 	v := r.peer.VerifView()
 	if v.Role == "Leader" {
 		m.checkReadAnswer(r, rtr.SystemCtx, rtr.Index, v.Term)
